@@ -39,11 +39,31 @@
 //@   ret r
 //@   ensures [C09.send.burn_then_mint,C05] (r is Ok, final(bank_storage).view()) == ({ let x = send_w(old(bank_storage).view(), from_address, to_address, amount@); (x.0 is Ok, x.1) })
 //@ end
+//@ fn src/bank.rs :: BankKeeper :: get_supply
+//@   ret r
+//@   replace_re "let supply: Uint128 = (?P<SRC>BALANCES\\s*\\.range\\([^;]*?\\))\\s*\\.collect::<StdResult<Vec<_>>>\\(\\)\\?\\s*\\.into_iter\\(\\)\\s*\\.map\\(\\|(?P<A>\\w+)\\| (?P<E>[^\\n]*)\\)\\s*\\.fold\\((?P<I>[^,]*), \\|(?P<ACC>\\w+), (?P<IT>\\w+)\\| \\{(?P<B>.*?)\\}\\);" => "let vx_it0 = \\g<SRC>; let ghost vx_items = vx_it0.rem(); let vx_entries = entries_collect(vx_it0)?; let ghost vx_bals = bals(vx_entries@); let ghost vx_e0 = vx_entries@;\n let mut vx_acc: Uint128 = \\g<I>;\n for \\g<A> in vx_entries.into_iter()\n { let \\g<IT> = \\g<E>; let \\g<ACC> = vx_acc; let ghost vx_item_coins = \\g<IT>.0@; vx_acc = { \\g<B> }; }\n let supply: Uint128 = vx_acc;"
+//@   loop 0 binder it
+//@   loop 0 invariant [C09.supply.outer_inv] it.seq() == vx_entries@ && vx_bals == bals(vx_entries@) && (supply_sum(vx_bals.subrange(0, it.index@ as int), denom@) <= u128::MAX ==> vx_acc.u == supply_sum(vx_bals.subrange(0, it.index@ as int), denom@))
+//@   loop 1 binder jt
+//@   loop 1 invariant [C09.supply.inner_inv] jt.seq() == vx_item_coins && (amt(vx_item_coins.subrange(0, jt.index@ as int), denom@) <= u128::MAX ==> subtotal.u == amt(vx_item_coins.subrange(0, jt.index@ as int), denom@))
+//@   before "re:^\\s*if coin\\.denom == denom \\{\\s*$" proof { assert(vx_item_coins.subrange(0, jt.index@ + 1).drop_last() =~= vx_item_coins.subrange(0, jt.index@ as int)); assert(vx_item_coins.subrange(0, jt.index@ + 1).last() == coin); }
+//@   before "re:^\\s*accum \\+ subtotal\\s*$" proof { assert(vx_item_coins.subrange(0, vx_item_coins.len() as int) =~= vx_item_coins); let k = it.index@ as int; assert(vx_bals.subrange(0, k + 1).drop_last() =~= vx_bals.subrange(0, k)); assert(vx_bals.subrange(0, k + 1).last() == vx_item_coins); }
+//@   before "re:^\\s*Ok\\(coin\\(supply\\.into\\(\\), denom\\)\\)\\s*$" proof { assert(vx_bals.subrange(0, vx_bals.len() as int) =~= vx_bals); let recs = choose|recs: Seq<RecV>| entries_of::<NativeBalance>(window(bank_storage.view(), lp(ns_balances())), recs, vx_items, Order::Ascending); assert forall|i: int| 0 <= i < recs.len() implies (NativeBalance::de((#[trigger] recs[i]).1) matches Ok(b) && b.0@ == vx_bals[i]) by { assert(vx_items[i] == Ok::<(Addr, NativeBalance), StdError>(vx_e0[i])); } }
+//@   ensures [C09.supply.sum] r matches Ok(c) ==> c.denom@ == denom@ && exists|recs: Seq<RecV>, vals: Seq<Seq<Coin>>| is_range_of(recs, window(bank_storage.view(), lp(ns_balances())), None, None, Order::Ascending) && vals.len() == recs.len() && (forall|i: int| 0 <= i < recs.len() ==> (NativeBalance::de((#[trigger] recs[i]).1) matches Ok(b) && b.0@ == vals[i])) && (supply_sum(vals, denom@) <= u128::MAX ==> c.amount.u == supply_sum(vals, denom@))
+//@ end
 //@ fn src/bank.rs :: BankKeeper :: init_balance
 //@   ret r
 //@   ensures [C09.init.sem] r is Ok && final(storage).view() == splice(old(storage).view(), lp(ns_bank()), set_bal(window(old(storage).view(), lp(ns_bank())), *account, amount@))
 //@ end
 }
+
+// the supply of a denomination: the sum, over every account record of the bank in key order, of that account's amount
+pub open spec fn supply_sum(vals: Seq<Seq<Coin>>, d: Seq<char>) -> nat
+    decreases vals.len()
+{
+    if vals.len() == 0 { 0 } else { supply_sum(vals.drop_last(), d) + amt(vals.last(), d) }
+}
+pub open spec fn bals(s: Seq<(Addr, NativeBalance)>) -> Seq<Seq<Coin>> { Seq::new(s.len(), |i: int| s[i].1.0@) }
 
 // `amount.into_iter().filter(|x| !x.amount.is_zero()).collect()`  (rule D4: filter-collect by its std definition)
 #[verifier::external_body]
